@@ -416,6 +416,12 @@ def _two_day(prog: Program, res: Result):
 
 
 VARIANTS = [
+    Variant("step loop written as an enumeration of the loads after the leading zero", "benign",
+            [(GHX, "        for i in range(1, n + 1):", "        for i, q_step in enumerate(q_dot_b[1:], start=1):"),
+             (GHX, "            tf_bulk = tb + q_dot_b[i] / h * rb", "            tf_bulk = tb + q_step / h * rb")]),
+    Variant("step loop enumerates the loads INCLUDING the leading zero (one step too many, loads shifted by one)", "break",
+            [(GHX, "        for i in range(1, n + 1):", "        for i, q_step in enumerate(q_dot_b[0:], start=0):"),
+             (GHX, "            tf_bulk = tb + q_dot_b[i] / h * rb", "            tf_bulk = tb + q_step / h * rb")], "R09.1"),
     Variant("kW -> W factor dropped on the hybrid path", "break", [(GHX, "            q_dot = self.hybrid_load.load[2:] * 1000.0  # convert to Watts", "            q_dot = self.hybrid_load.load[2:]  # convert to Watts")], "R09.2"),
     Variant("hours not converted to seconds", "break", [(GHX, "            g_values = g(np.log((_time * SEC_IN_HR) / ts))\n            # Tb = Tg + (q_dt * g)  (Equation 2.12)\n            delta_tb_i = (q_dot_b_dt[0:i] / h / two_pi_k)", "            g_values = g(np.log(_time / ts))\n            # Tb = Tg + (q_dt * g)  (Equation 2.12)\n            delta_tb_i = (q_dot_b_dt[0:i] / h / two_pi_k)")], "R09.1"),
     Variant("field load not divided by the number of boreholes", "break", [(GHX, "        q_dot_b = np.hstack((0.0, q_dot / float(self.nbh)))", "        q_dot_b = np.hstack((0.0, q_dot))")], "R09.1"),
